@@ -745,11 +745,37 @@ func vNoThen(e *vExpr) bool {
 	return true
 }
 
-// can e end at more than one payload position (conservative: an AND outside NOT)
+// bound on the number of payload positions a reading of a group ends at
+func vDataEnds(e *vExpr) int {
+	switch e.Op {
+	case "atom":
+		if e.Atom.Kind == "data" {
+			return 1
+		}
+		return 0
+	case "and", "then":
+		n := 0
+		for _, k := range e.Kids {
+			n += vDataEnds(k)
+		}
+		return n
+	case "or":
+		n := 0
+		for _, k := range e.Kids {
+			if m := vDataEnds(k); m > n {
+				n = m
+			}
+		}
+		return n
+	}
+	return 0
+}
+
+// can e end at more than one payload position: an AND (outside NOT) of sides with payload filters
 func vMultiEnd(e *vExpr) bool {
 	switch e.Op {
 	case "and":
-		return true
+		return vDataEnds(e) >= 2
 	case "or", "then":
 		for _, k := range e.Kids {
 			if vMultiEnd(k) {
